@@ -78,3 +78,29 @@ Lemma ws_server_cfg_fixed_ok :
   wsc_fix (ws_server_cfg ws_fixed) = ws_fixed /\ ws_drain_buf <= wsc_rxbuf (ws_server_cfg ws_fixed) /\
   wsc_server (ws_server_cfg ws_fixed) = true.
 Proof. repeat split. unfold ws_drain_buf. cbn. lia. Qed.
+
+(* ---- client session: frames from the server are not masked ---- *)
+Definition ws_w_uframe (p : bytes) : bytes := 130 :: len p :: p.
+Definition ws_w_content : bytes := [0; 69; 255; 97].      (* 2.05 Content "a" *)
+Definition ws_w_cstream : bytes := ws_response ++ ws_w_uframe ws_w_content ++ ws_w_uframe ws_w_ping.
+
+Lemma ws_response_accepted :
+  ws_run (ws_client_cfg ws_fixed) (MHs ws_flags0 []) ws_response = (MHdr [], [WConnected]).
+Proof. vm_compute. reflexivity. Qed.
+
+(* (4') as found, client session: two small frames that arrive together - the second one sits in
+   the read-ahead buffer and is not delivered until further bytes arrive *)
+Theorem ws_orig_client_strand_refuted :
+  exists arr1 arr2, concat arr1 = concat arr2 /\
+    snd (ws_arrivals (ws_client_cfg ws_orig) ws_init arr1) = [WConnected; WMsg ws_w_content] /\
+    snd (ws_arrivals (ws_client_cfg ws_orig) ws_init arr2) = [WConnected; WMsg ws_w_content; WMsg ws_w_ping].
+Proof.
+  exists [ws_w_cstream], (ws_w_cut (len ws_response + 6) ws_w_cstream).
+  split; [vm_compute; reflexivity|]. split; vm_compute; reflexivity.
+Qed.
+
+Example ws_fixed_client_witness :
+  snd (ws_arrivals (ws_client_cfg ws_fixed) ws_init [ws_w_cstream]) =
+    [WConnected; WMsg ws_w_content; WMsg ws_w_ping] /\
+  wsc_fix (ws_client_cfg ws_fixed) = ws_fixed /\ ws_drain_buf <= wsc_rxbuf (ws_client_cfg ws_fixed).
+Proof. split; [vm_compute; reflexivity|]. split; [reflexivity|]. unfold ws_drain_buf. cbn. lia. Qed.
